@@ -9,13 +9,34 @@ use crate::{for_both, hx, Ctx};
 use blsful::*;
 use serde_json::json;
 
-pub const RULE: &str = "(1) GOLDEN CORPUS /verif/golden/corpus-4bdca94.json, produced once by the pinned release: for every data type x group x scheme the bytes / serde_bare / serde_json encodings plus the ground truth (keys, messages, identifiers, plaintexts, challenges). On the current tree every artefact must still decode in all three codecs to equal values, re-encode to the recorded bytes, and verify / decrypt / recombine to its ground truth (signatures also: the current tree must produce the same bytes; ciphertexts and proofs also: the reference implementation must open / accept them). Pinned outputs that were self-inconsistent at generation are flagged in the corpus and judged through what is consistent (SecretKeyEnum raw byte form; MessageAugmentation time-lock ciphertexts open with the raw tagged signature over the identifier). (2) LIVE INTEROP on fresh inputs, reference -> library: signcryption ciphertexts sealed by the reference (own framing, salts, Shake128 keystream) must be valid and decrypt in the library; time-lock ciphertexts sealed by the reference must open with library signatures; proofs of knowledge built by the reference (interactive and with y = H(u || t_le)) must verify; ElGamal proofs built by the reference over its own merlin transcript must verify and decrypt, with the default AND with a caller-supplied message generator (trait-level API, both directions); serde_bare layouts written byte by byte by the reference (variant || point, u || LEB(len) || v || w || scheme, u || v || LEB(len) || w || scheme, variant || u || v [|| t_le64], id || payload) must decode to values equal to the library's own. (library -> reference is exercised by C10-C14 and again by the corpus.) Distinct by (origin, suite, kind, scheme, encoded bytes).";
+pub const RULE: &str = "(1) GOLDEN CORPORA /verif/golden/corpus-4bdca94.json (122 artefacts) and corpus-4bdca94-b.json (46 artefacts: caller-supplied ElGamal generator, share identifiers 254/255, 40-signer aggregates, 130- and 16384-byte payloads, challenge r-1), produced by the pinned release: for every data type x group x scheme the bytes / serde_bare / serde_json encodings plus the ground truth (keys, messages, identifiers, plaintexts, challenges). On the current tree every artefact must still decode in all three codecs to equal values, re-encode to the recorded bytes, and verify / decrypt / recombine to its ground truth (signatures also: the current tree must produce the same bytes; ciphertexts and proofs also: the reference implementation must open / accept them). Pinned outputs that were self-inconsistent at generation are flagged in the corpus and judged through what is consistent (SecretKeyEnum raw byte form; MessageAugmentation time-lock ciphertexts open with the raw tagged signature over the identifier). (2) LIVE INTEROP on fresh inputs, reference -> library: signcryption ciphertexts sealed by the reference (own framing, salts, Shake128 keystream) must be valid and decrypt in the library; time-lock ciphertexts sealed by the reference must open with library signatures; proofs of knowledge built by the reference (interactive and with y = H(u || t_le)) must verify; ElGamal proofs built by the reference over its own merlin transcript must verify and decrypt, with the default AND with a caller-supplied message generator (trait-level API, both directions); serde_bare layouts written byte by byte by the reference (variant || point, u || LEB(len) || v || w || scheme, u || v || LEB(len) || w || scheme, variant || u || v [|| t_le64], id || payload) must decode to values equal to the library's own. (library -> reference is exercised by C10-C14 and again by the corpus.) Distinct by (origin, suite, kind, scheme, encoded bytes).";
 
 pub fn corpus_path(ctx: &Ctx) -> std::path::PathBuf {
     ctx.verif_dir.join("golden").join("corpus-4bdca94.json")
 }
 
 pub fn run(ctx: &mut Ctx) {
+    // corpus B: corners added later (custom ElGamal generator, identifiers 254/255, 40-signer
+    // aggregate, long payloads, extreme challenge), generated from the same pinned commit
+    let pb = ctx.verif_dir.join("golden").join("corpus-4bdca94-b.json");
+    match std::fs::read(&pb).ok().and_then(|b| serde_json::from_slice::<Corpus>(&b).ok()) {
+        Some(c) => {
+            ctx.note("corpus_b_header", c.header.clone());
+            for s in ["G1Impl", "G2Impl"] {
+                for cell in golden::expected_cells_extra("pinned-b", s) {
+                    ctx.require(&cell);
+                }
+            }
+            for (i, a) in c.artefacts.iter().enumerate() {
+                if !ctx.mine(5000 + i as u64) {
+                    continue;
+                }
+                golden::check::<Bls12381G1Impl>(ctx, "C18", "pinned-b", a);
+                golden::check::<Bls12381G2Impl>(ctx, "C18", "pinned-b", a);
+            }
+        }
+        None => ctx.harness_error("golden corpus B missing or unreadable".into()),
+    }
     let corpus: Option<Corpus> = std::fs::read(corpus_path(ctx)).ok().and_then(|b| serde_json::from_slice(&b).ok());
     match corpus {
         Some(c) => {
